@@ -644,6 +644,15 @@ class Impl:
     def op_sq_setOff(self, op):
         self.g(op["id"]).setChannelOffset(op["ch"], self.v(op["v"]))
 
+    def op_sq_setRange(self, op):
+        # the deprecated setChannelVoltageRange (amplitude and offset in one call; it warns)
+        with warnings.catch_warnings():
+            warnings.simplefilter("ignore")
+            self.g(op["id"]).setChannelVoltageRange(op["ch"], self.v(op["ampl"]), self.v(op["offset"]))
+
+    def op_sq_len(self, op):
+        return int(self.g(op["id"]).length_sequenceelements)
+
     def op_sq_setDelay(self, op):
         self.g(op["id"]).setChannelDelay(op["ch"], self.v(op["v"]))
 
@@ -985,7 +994,7 @@ def cmp_seqx(impl, model, path, tol):
     return None
 
 
-READONLY_SIMPLE = {"bp.eq", "el.eq", "sq.eq", "sq.check", "bp.points", "el.points", "sq.points"}
+READONLY_SIMPLE = {"bp.eq", "el.eq", "sq.eq", "sq.check", "bp.points", "el.points", "sq.points", "sq.len"}
 RAT_RESULT = {"sq.SR", "bp.duration", "el.duration", "sq.duration"}
 
 
